@@ -3,6 +3,7 @@ package main
 import (
 	"net"
 	"os/exec"
+	"strings"
 	"sync"
 )
 
@@ -68,7 +69,15 @@ var targetKinds = []targetKind{
 	13: {"mapped-private", "10.99.0.1", 4, "::ffff:10.99.0.1", false},
 	14: {"mapped-public", "203.0.113.77", 4, "::ffff:203.0.113.77", true},
 	15: {"domain-literal-public", "203.0.113.77", 3, "203.0.113.77", true},
+	// malformed and boundary forms (C18); never forwarded
+	16: {"domain-255-unresolvable", "", 3, strings.Repeat("abcdefghijklmnopqrstuvwxyz", 10)[:255], false},
+	17: {"truncated-v4", "", 91, "", false},
+	18: {"truncated-domain", "", 92, "", false},
+	19: {"type-0", "", 93, "", false},
 }
+
+// malformedKind: the address never denotes a destination (bad type, truncated, unresolvable)
+func malformedKind(k int) bool { return k == 9 || k >= 16 }
 
 // socksAddrBytes encodes the SOCKS address of a target kind with the given port.
 func socksAddrBytes(kind, port int) []byte {
@@ -81,6 +90,14 @@ func socksAddrBytes(kind, port int) []byte {
 		return append(append([]byte{4}, net.ParseIP(k.host).To16()...), p...)
 	case 3:
 		return append(append([]byte{3, byte(len(k.host))}, []byte(k.host)...), p...)
+	}
+	switch k.atyp {
+	case 91:
+		return []byte{1, 127, 0}
+	case 92:
+		return []byte{3, 200, 97, 98}
+	case 93:
+		return []byte{0, 1, 2, 3, 4, 5, 6}
 	}
 	return []byte{9, 1, 2, 3, 4, 5, 6}
 }
